@@ -19,6 +19,8 @@ func propOf(p string) string {
 		return "C19"
 	case "C05scale":
 		return "C05"
+	case "C08scale":
+		return "C08"
 	}
 	return p
 }
@@ -67,6 +69,8 @@ func eligible(prop string, p *progen.Prog) bool {
 		return emitters(p) > 0 && !emitSlice(p) // routing emitters cannot attribute state reports (they carry no context)
 	case "C03scale", "C05scale":
 		return p.Par != nil && len(p.Par.Colls) > 0
+	case "C08scale":
+		return p.Par != nil && len(p.Par.Colls) > 0 && (p.Par.COEMode == progen.ArgConst || p.Par.COEMode == progen.ArgRuntime)
 	case "C10scale", "C10scale8", "C19scale":
 		if p.Par == nil || (prop == "C19scale" && (p.Par.Emitters == 0 || p.Par.EmitSlice)) {
 			return false
@@ -192,7 +196,7 @@ func Generate(rng *rand.Rand, prop, tier string, gomaxprocs int) *Desc {
 	d := &Desc{Engine: "l2", Prop: prop, GOMAXPROCS: gomaxprocs}
 	progs := eligibleProgs(prop)
 	nexec := 1
-	if prop == "C03scale" || prop == "C05scale" || prop == "C10scale" || prop == "C10scale8" || prop == "C19scale" {
+	if prop == "C03scale" || prop == "C05scale" || prop == "C08scale" || prop == "C10scale" || prop == "C10scale8" || prop == "C19scale" {
 		return generateScale(rng, prop, tier, gomaxprocs, progs)
 	}
 	switch r := rng.Intn(10); {
@@ -378,6 +382,9 @@ func Generate(rng *rand.Rand, prop, tier string, gomaxprocs int) *Desc {
 		if prop == "C03" && p.Par != nil && rng.Intn(3) == 0 && x.CancelMode == CancelNone {
 			setBarrier(rng, p, &x, gomaxprocs)
 		}
+		if (prop == "C03" || prop == "C20mod") && p.Flow != nil && rng.Intn(3) == 0 && x.CancelMode == CancelNone {
+			setBarrierFlow(p, &x, gomaxprocs)
+		}
 		total += 24
 		// nested directive: the body of one task runs another program
 		if nestable && !x.Barrier && x.HoldTask == 0 && len(taskIDs) > 0 && depth < 2 && nested < 3 && rng.Intn(5) == 0 {
@@ -462,6 +469,54 @@ func setBarrier(rng *rand.Rand, p *progen.Prog, x *ExecD, gmp int) {
 	}
 }
 
+// setBarrierFlow: the tasks of a flow that need nothing from other tasks are
+// runnable at the same time; as many of them as the limit allows must be able
+// to run concurrently (they meet at a barrier). Fault-free execution.
+func setBarrierFlow(p *progen.Prog, x *ExecD, gmp int) {
+	f := p.Flow
+	prov := map[int]bool{}
+	for i := range f.Tasks {
+		for _, o := range f.Tasks[i].Out {
+			prov[o] = true
+		}
+	}
+	set := map[int]bool{}
+	for _, t := range f.Tasks {
+		if t.Pred != nil {
+			continue
+		}
+		free := true
+		for _, in := range t.In {
+			free = free && !prov[in]
+		}
+		if free {
+			set[t.ID] = true
+		}
+	}
+	limit := 0
+	switch f.ConcMode {
+	case progen.ArgConst:
+		limit = f.ConcConst
+	case progen.ArgRuntime:
+		limit = x.Conc
+	}
+	if limit <= 0 {
+		limit = max(gmp, 4)
+	}
+	n := min(limit, len(set))
+	if n < 2 {
+		return
+	}
+	x.TaskOut = map[int]int{}
+	for id := range x.PredOut {
+		if x.PredOut[id] == progen.PredPanic {
+			x.PredOut[id] = progen.PredTrue
+		}
+	}
+	x.Stuck = nil
+	x.Barrier, x.BarrierN, x.BarrierSet = true, n, set
+}
+
 // setHold prepares the "predicate must not wait for the task's other inputs"
 // population: a provider that only the task needs is held until the
 // predicate has been evaluated.
@@ -540,6 +595,10 @@ func generateScale(rng *rand.Rand, prop, tier string, gmp int, progs []int) *Des
 	total := 0
 	large := false
 	faultAt0 := 0
+	manyFail := false
+	if prop == "C08scale" {
+		x.Bools = [2]bool{true, false} // the run-time ContinueOnError expression is true
+	}
 	for _, c := range p.Par.Colls {
 		n := 1000 + rng.Intn(3000)
 		if tier == "thorough" {
@@ -558,6 +617,11 @@ func generateScale(rng *rand.Rand, prop, tier string, gmp int, progs []int) *Des
 			}
 		case prop == "C10scale" || prop == "C19scale":
 			n = rng.Intn(300)
+		case prop == "C08scale" && !large:
+			// thousands of failures in one ContinueOnError directive: every one of them is to be reported
+			n, large, manyFail = 1500+rng.Intn(2500), true, true
+		case prop == "C08scale":
+			n = rng.Intn(40)
 		case prop == "C05scale" && !large:
 			// a fault right at the beginning of a collection of more than 2^16 elements:
 			// everything behind it is submitted to a scheduler that has stopped, or is skipped
@@ -576,6 +640,19 @@ func generateScale(rng *rand.Rand, prop, tier string, gmp int, progs []int) *Des
 		cd := &CollD{Fail: map[int]int{}}
 		if faultAt0 != 0 {
 			cd.Fail[0], faultAt0 = faultAt0, 0
+		}
+		if manyFail {
+			manyFail = false
+			for k := 0; k < n; k++ {
+				switch r := rng.Intn(100); {
+				case r < 3:
+					cd.Fail[k] = progen.Panic
+				case r < 70 && c.Err:
+					cd.Fail[k] = progen.Err
+				case r < 20:
+					cd.Fail[k] = progen.Panic
+				}
+			}
 		}
 		cd.Vals = make([]uint64, n)
 		cd.Keys = make([]uint64, n)
